@@ -392,7 +392,8 @@ def run(repo: Repo, rep: Report) -> None:
             if not pair or len(pair) != 2:
                 raise AnalysisError("%s: `src, dst = u.graph` not found" % q)
             for n in own_nodes(f):
-                if isinstance(n, ast.Assign) and isinstance(n.value, ast.Call) and norm(n.value.func) == "_graphOrDefault" and len(n.value.args) == 2:
+                # a graph obtained for one of the two names through a helper of the module that takes (ctx, name): _graphOrDefault, _sourceGraph ...
+                if isinstance(n, ast.Assign) and isinstance(n.value, ast.Call) and isinstance(n.value.func, ast.Name) and up.has(n.value.func.id) and len(n.value.args) == 2:
                     a = norm(n.value.args[1])
                     if a in pair:
                         role[norm(n.targets[0])] = "src" if a == pair[0] else "dst"
@@ -662,6 +663,18 @@ def run(repo: Repo, rep: Report) -> None:  # noqa: F811
              "prefix must not rewrite the IRIs of earlier operations", floor=1)
     tu = alg.func("translateUpdate")
     tp = [c for c in own_nodes(tu) if isinstance(c, ast.Call) and norm(c.func) == "translatePrologue"]
+
+    def _in_returning_branch(c):
+        # a call made in a branch that returns at once (the request without operations: only its prologue is folded) translates no operation afterwards
+        for p_ in alg.parents(c):
+            if isinstance(p_, ast.Return):
+                return True
+            if isinstance(p_, ast.If) and any(c is x for s_ in p_.body for x in ast.walk(s_)) and isinstance(p_.body[-1], ast.Return):
+                return True
+            if p_ is tu:
+                return False
+        return False
+    tp = [c for c in tp if not _in_returning_branch(c)]
     t1 = [c for c in own_nodes(tu) if isinstance(c, ast.Call) and norm(c.func) in ("translateUpdate1", "translatePName") or (isinstance(c, ast.Call) and any("translatePName" in norm(a) for a in c.args) and norm(c.func) == "functools.partial")]
     if not tp or not t1:
         raise AnalysisError("translateUpdate: prologue folding / operation translation calls not found")
